@@ -256,6 +256,21 @@ def check_instance_case(ctx, case, ops, res, rc, err, files, mexe, problems):
             offered.add(e["n"])
         if e["k"] == "popen" and e["fon"] and e["n"] in offered:
             reopened.add(e["n"])
+    # 2b. within one row every value must land in its own column: two values punched under the SAME engine-generated
+    #     name (no_heading_k) means a text cell of the string/file is overwritten in the table (user-supplied duplicate
+    #     headings share a column by design — TestDuplicateHeadings — and are not judged)
+    for n in uns:
+        names = []
+        for e in events:
+            if e.get("n") != n:
+                continue
+            if e["k"] == "pval":
+                if e["name"].startswith("no_heading_") and e["name"] in names:
+                    bad("row:duplicate-generated-name", "two values of one row of user number %d are punched under the same generated heading %r: the string/file row has both cells, the table keeps only the last" % (n, e["name"]), n=n, event=e)
+                    break
+                names.append(e["name"])
+            elif e["k"] == "endrow":
+                names = []
     # 3. model reproduces every sink
     for n in uns:
         o = obs["sel"].get(str(n))
